@@ -88,6 +88,7 @@ class _FnWalker(object):
         self.fname = fname
         self.res = res
         self.rows = []
+        self.checks = []            # (fname, ordinal, guard text) of unexpected_message aborts
         self.tracked_in_loop = set()
 
     # ---- expressions: find _getMsg calls in evaluation order
@@ -114,6 +115,12 @@ class _FnWalker(object):
         calls.sort(key=lambda c: (c.lineno, c.col_offset))
         for c in calls:
             self.add_call(c, env, guards)
+        errs = [n for n in ast.walk(node)
+                if isinstance(n, ast.Call) and isinstance(n.func, ast.Attribute) and n.func.attr == '_sendError'
+                and n.args and isinstance(n.args[0], ast.Attribute) and n.args[0].attr == 'unexpected_message']
+        errs.sort(key=lambda c: (c.lineno, c.col_offset))
+        for c in errs:
+            self.checks.append((self.fname, len(self.checks), ' && '.join(guards)))
 
     def arg_alts(self, node, env, what):
         v = self.res.const(node)
@@ -272,6 +279,7 @@ def extract(repo=None):
     consts = _constants()
     res = _Resolver(consts)
     rows = []
+    del CHECKS[:]
     for rel in FILES:
         path = os.path.join(repo, rel)
         with open(path) as f:
@@ -296,12 +304,65 @@ def extract(repo=None):
                 w = _FnWalker(fn.name, res)
                 w.walk(fn.body, {}, [])
                 rows += w.rows
+                CHECKS.extend(w.checks)
                 n_seen += len(w.rows)
         if n_seen != n_attr:
             raise Refuse('%s: %d mentions of _getMsg but %d call sites extracted' % (rel, n_attr, n_seen))
     if not rows:
         raise Refuse('no _getMsg call sites found')
     return rows
+
+
+CHECKS = []
+
+
+def defrag_sources(repo=None):
+    """normalised source text of the defragmenter pieces the ordering checks rely on"""
+    repo = repo or REPO
+    out = []
+    with open(os.path.join(repo, 'tlslite/defragmenter.py')) as f:
+        tree = ast.parse(f.read())
+    want = ('is_empty', 'get_message', 'add_data', 'clear_buffers')
+    found = {}
+    for cls in tree.body:
+        if isinstance(cls, ast.ClassDef) and cls.name == 'Defragmenter':
+            for fn in cls.body:
+                if isinstance(fn, ast.FunctionDef) and fn.name in want:
+                    body = fn.body
+                    if body and isinstance(body[0], ast.Expr) and isinstance(body[0].value, ast.Constant) \
+                            and isinstance(body[0].value.value, str):
+                        body = body[1:]
+                    found[fn.name] = ' ; '.join(_src(b) for b in body)
+    for n in want:
+        if n not in found:
+            raise Refuse('Defragmenter.%s not found' % n)
+        out.append(('Defragmenter.' + n, found[n]))
+    # how the record layer configures it (priority order = order of registration)
+    with open(os.path.join(repo, 'tlslite/tlsrecordlayer.py')) as f:
+        tree = ast.parse(f.read())
+    regs = []
+    for n in ast.walk(tree):
+        if isinstance(n, ast.Call) and isinstance(n.func, ast.Attribute) and \
+                n.func.attr in ('add_static_size', 'add_dynamic_size') and \
+                isinstance(n.func.value, ast.Attribute) and n.func.value.attr == '_defragmenter':
+            regs.append((n.lineno, _src(n)))
+    if not regs:
+        raise Refuse('defragmenter registrations not found in tlsrecordlayer.py')
+    out.append(('TLSRecordLayer.defragmenter_setup', ' ; '.join(t for _, t in sorted(regs))))
+    # users of is_empty() (every one must be a modelled check)
+    users = []
+    for rel in FILES:
+        with open(os.path.join(repo, rel)) as f:
+            tree = ast.parse(f.read())
+        for cls in tree.body:
+            if isinstance(cls, ast.ClassDef):
+                for fn in cls.body:
+                    if isinstance(fn, ast.FunctionDef):
+                        k = sum(1 for n in ast.walk(fn) if isinstance(n, ast.Attribute) and n.attr == 'is_empty')
+                        if k:
+                            users.append('%s:%d' % (fn.name, k))
+    out.append(('is_empty.users', ' ; '.join(users)))
+    return out
 
 
 def _s(x):
@@ -327,6 +388,17 @@ def to_coq(rows):
         a = '; '.join('(%s, %s, %s)' % (_s(g), _zl(c), _zl(h)) for (g, c, h) in alts)
         lines.append('  mk_row %s %d %s\n     [%s]' % (_s(fn), k, _s(guard), a))
     out.append(';\n'.join(lines))
+    out.append('].')
+    out.append('')
+    out.append('(* every self._sendError(AlertDescription.unexpected_message, ...) site: method, ordinal,')
+    out.append('   text of the enclosing conditions -- the ordering checks that are not gates *)')
+    out.append('Definition extracted_order_checks : list (string * Z * string) := [')
+    out.append(';\n'.join('  (%s, %d, %s)' % (_s(f), k, _s(g)) for (f, k, g) in CHECKS))
+    out.append('].')
+    out.append('')
+    out.append('(* the defragmenter pieces those checks rely on, as normalised source text *)')
+    out.append('Definition extracted_defrag : list (string * string) := [')
+    out.append(';\n'.join('  (%s, %s)' % (_s(a), _s(b2)) for (a, b2) in defrag_sources()))
     out.append('].')
     return '\n'.join(out)
 
@@ -364,3 +436,7 @@ def generate(coq_dir):
 if __name__ == '__main__':
     for r in extract():
         print(r)
+    for c in CHECKS:
+        print('CHECK', c)
+    for d in defrag_sources():
+        print('DEFRAG', d)
